@@ -182,7 +182,21 @@ def run_case(case, rec):
             if flash(s2, T=T0, P=P0):
                 a = np.array([r.to_array() for r in s.imol.data.rows]); b = np.array([r.to_array() for r in s2.imol.data.rows])
                 F = a.sum()
-                rec.check(np.allclose(b, k * a, rtol=0, atol=1e-5 * F * k), 'scaling', 'TP', f'flash of {k}*feed is not {k} times the flash of the feed: max deviation {np.abs(b - k * a).max() / (F * k):.3g} of the feed', residual=float(np.abs(b - k * a).max() / (F * k)))
+                ssfx = ''
+                if not np.allclose(b, k * a, rtol=0, atol=1e-5 * F * k):
+                    # mechanism: is either result an unconverged iterate of the fixed point (liquid and vapour fugacities of the returned split far apart)?
+                    def fug_dev(st):
+                        g = st.imol['g'].to_array()[vidx]; l = st.imol['l'].to_array()[vidx]
+                        if not (g.sum() > 0 and l.sum() > 0): return 0.0
+                        y = g / g.sum(); x = l / l.sum(); cs = tuple(chems[i] for i in case['ids'])
+                        Psat = np.array([c.Psat(T0) for c in cs])
+                        fl = x * th.Gamma(cs)(x.copy(), T0) * Psat * th.PCF(cs)(T0, P0, Psat); fg = y * th.Phi(cs)(y.copy(), T0, P0) * P0
+                        m_ = fg > 0
+                        return float((np.abs(fl - fg)[m_] / fg[m_]).max()) if m_.any() else 0.0
+                    try:
+                        if max(fug_dev(s), fug_dev(s2)) > 1e-2: ssfx = '/unconverged-fixed-point'
+                    except Exception: pass
+                rec.check(np.allclose(b, k * a, rtol=0, atol=1e-5 * F * k), 'scaling', 'TP' + ssfx, f'flash of {k}*feed is not {k} times the flash of the feed: max deviation {np.abs(b - k * a).max() / (F * k):.3g} of the feed', residual=float(np.abs(b - k * a).max() / (F * k)))
             # ---- ideal package vs Raoult Rachford-Rice
             if kind == 'ideal' and not case['inert']:
                 z = np.array(case['x']); cs = [chems[i] for i in case['ids']]
@@ -230,7 +244,16 @@ def run_case(case, rec):
                 s3 = make(case, th)
                 if flash(s3, T=s.T, P=s.P):
                     V3 = vfrac(s3, vidx)
-                    rec.check(abs(V3 - V0) <= 5e-3 + vb, 'independent-reflash', spec_name, f'vle({spec}) returned T={s.T!r}, P={s.P!r}; an independent TP flash there gives vapour fraction {V3!r}, not {V0} ({ids}, z={case["x"]})', residual=abs(V3 - V0))
+                    sfx_ = ''
+                    if abs(V3 - V0) > 5e-3 + vb:
+                        # mechanism: do the library's own bubble and dew solvers bracket a two-phase window at the returned state? (a dew temperature below the
+                        # bubble temperature at one pressure is the recorded C08 dew-solver finding reaching the flash, which takes its bounds from them)
+                        try:
+                            z_ = np.array(case['x']); cs_ = tuple(chems[i] for i in case['ids'])
+                            Tb_ = eq.BubblePoint(cs_, th).solve_Ty(z_, s.P)[0]; Td_ = eq.DewPoint(cs_, th).solve_Tx(z_, s.P)[0]
+                            if Td_ < Tb_ - 1e-6: sfx_ = '/dew-below-bubble'
+                        except Exception: pass
+                    rec.check(abs(V3 - V0) <= 5e-3 + vb, 'independent-reflash', spec_name + sfx_, f'vle({spec}) returned T={s.T!r}, P={s.P!r}; an independent TP flash there gives vapour fraction {V3!r}, not {V0} ({ids}, z={case["x"]})', residual=abs(V3 - V0))
                 two_phase = True
         # ---- x / y specifications (binary equilibrium sets): the fixed variable is written, the named phase has the specified composition
         if len(case['ids']) == 2 and kind != 'single':
@@ -481,7 +504,7 @@ def extra_clauses(case, rec, th, ids, vidx, flash):
             rec.hit('initial-distribution')
             rec.check(s.T == T0 and s.P == P0, 'spec-TP', 'TP/initial-distribution', f'vle(T={T0}, P={P0}) on a feed that starts split over g / l left T={s.T!r}, P={s.P!r}')
             Va, Vb = vfrac(ref, vidx), vfrac(s, vidx)
-            rec.check(abs(Va - Vb) <= 5e-3, 'independent-reflash', 'initial-distribution', f'vle(T={T0}, P={P0}) on {ids}: vapour fraction {Va!r} from an all-liquid feed but {Vb!r} from the same feed split {case["dist0"]} over g / l', residual=abs(Va - Vb))
+            rec.check(abs(Va - Vb) <= 5e-3, 'independent-reflash', 'initial-distribution', f'vle(T={T0}, P={P0}) on {ids}: vapour fraction {Va!r} from an all-liquid feed but {Vb!r} from the same feed split {case.get("dist0")} over g / l', residual=abs(Va - Vb))
             # chain: P,V then P,H on the same stream
             if flash(s, P=P0, V=V0):
                 Vg = vfrac(s, vidx)
